@@ -42,6 +42,10 @@ CLAIMED = {
          "Decides the framing discipline on every path and for every chunking: reads are exact or capped by the remaining data size, the consumed-byte counter is advanced exactly with the read position, success requires n >= limit then a 2-byte CRC read, chained files get a fresh decoder. Chunking cannot matter because no rule depends on how many bytes a Read returns.",
          "Trusted: io.ReadFull/binary.Read/io.CopyN/io.Reader contracts. Not decided: equality of chained results with stand-alone decoding (paper consequence with C08); n <= limit is implied by cap + counting but not computed.",
          "DESIGN.md 4 C10"),
+ "C16": ("other", "control-dependence (post-dominator) and data-flow non-interference analysis of option-derived values on SSA + guard-dominance rules for the two counters + shape rules for handlers",
+         "Decides that option values cannot influence parsing: every instruction control-dependent on an option-derived branch is logging or unknown-item bookkeeping, option values flow nowhere else, the counters are guarded by exactly the conditions the statement names, and the reports are deferred before parsing and sorted. Holds for all 8 option combinations and all streams because it is a property of the code's dependence structure.",
+         "Trusted: post-dominator computation; Logger implementations do not reach back into the decoder. Not decided: counts as numbers on concrete streams; the 'every record completed before the failure' clause.",
+         "DESIGN.md 4 C16"),
 }
 
 NOT_APPLICABLE = {
